@@ -430,9 +430,18 @@ func (d *Driver) togglePartition() {
 // with one "Stabilized" event per live node.
 func (d *Driver) Stabilize(rounds int) {
 	c := d.c
+	c.Quiet = true
+	c.quietFrom = len(c.Sched)
 	d.blocked = map[[2]uint64]bool{}
-	// distinct, fixed timeouts per node break ties deterministically
-	c.rtoDraw = func(id uint64, et int) int { return et + int(id-1)%et }
+	// Election-timeout draws in the fault-free suffix: the randomized timeout exists to break
+	// ties eventually; the suffix uses the favourable draw (the most up-to-date node times out
+	// first), so that a bounded number of rounds suffices and the check never depends on luck.
+	c.rtoDraw = func(id uint64, et int) int {
+		if id == d.mostUpToDate() {
+			return et
+		}
+		return 2*et - 1
+	}
 	for round := 0; round < rounds; round++ {
 		members := d.committedMembers()
 		for _, id := range c.IDs {
@@ -457,6 +466,15 @@ func (d *Driver) Stabilize(rounds int) {
 		for _, id := range c.IDs {
 			if members[id] {
 				c.Do(Step{Act: "Tick", Node: id})
+			}
+		}
+		// the application keeps working: a proposal accepted in the suffix must be applied by
+		// every member (and gives a pending automatic leave-joint its retry point)
+		if round == rounds/2 || round == rounds/2+3 {
+			if ld := d.leader(); ld != nil {
+				if c.Do(Step{Act: "Propose", Node: ld.ID, Pid: d.nextPid}) {
+					d.nextPid++
+				}
 			}
 		}
 		// run everything to quiescence (bounded)
@@ -485,6 +503,28 @@ func (d *Driver) Stabilize(rounds int) {
 				}
 			}
 			// deliver all in-flight messages, oldest first
+			// "If any Message has type MsgSnap, call Node.ReportSnapshot() after it has been sent":
+			// a transfer that is no longer under way is reported as failed
+			for _, id := range c.IDs {
+				n := c.up(id)
+				if n == nil || n.RN.BasicStatus().RaftState != raft.StateLeader {
+					continue
+				}
+				for _, pr := range n.RN.VerifState().Progress {
+					if pr.State != "StateSnapshot" {
+						continue
+					}
+					inFlight := false
+					for _, nm := range c.Net {
+						if nm.M.GetType() == pb.MsgSnap && nm.M.GetFrom() == id && nm.M.GetTo() == pr.ID {
+							inFlight = true
+						}
+					}
+					if !inFlight && c.Do(Step{Act: "ReportSnapshot", Node: id, To: pr.ID, Ok: false}) {
+						progress = true
+					}
+				}
+			}
 			msgs := append([]*NetMsg(nil), c.Net...)
 			for _, nm := range msgs {
 				if c.up(nm.M.GetTo()) == nil {
@@ -518,9 +558,38 @@ func (d *Driver) Stabilize(rounds int) {
 			}
 		}
 	}
+	c.Quiet = false
+	var live []uint64
 	for _, id := range c.IDs {
-		c.Do(Step{Act: "Stabilized", Node: id, K: uint64(rounds)})
+		if c.up(id) != nil {
+			live = append(live, id)
+		}
 	}
+	for k, id := range live {
+		c.Do(Step{Act: "Stabilized", Node: id, K: uint64(rounds), Ok: k == len(live)-1})
+	}
+}
+
+// mostUpToDate returns the running voter with the largest (last term, last index).
+func (d *Driver) mostUpToDate() uint64 {
+	var best uint64
+	var bt, bi uint64
+	for _, n := range d.upNodes() {
+		s := n.RN.VerifState()
+		voter := false
+		for _, v := range s.ConfState.GetVoters() {
+			if v == n.ID {
+				voter = true
+			}
+		}
+		if !voter {
+			continue
+		}
+		if best == 0 || s.LastTerm > bt || (s.LastTerm == bt && s.LastIndex > bi) {
+			best, bt, bi = n.ID, s.LastTerm, s.LastIndex
+		}
+	}
+	return best
 }
 
 func (d *Driver) maintainSnapshots() {
